@@ -10,7 +10,7 @@
        coverage   when compilation succeeds: the analysis ran on EVERY procedure of the call tree (own walk) and
                   the check was invoked on EVERY par loop at every nesting position
        canonical  fixed programs whose verdict every version of the analysis must reproduce
-       exactness  on the systematic family (race-free by construction <=> shifts equal) the real verdict must be
+       exactness  on the systematic and window-chain families (race-free by construction) the real verdict must be
                   `accept` for the race-free members (the racy ones are the search's business)
   3. search       every procedure the REAL compiler accepts is run by the extracted instrumented semantics
                   (Footprint.v, sequential order) on a bounded family of valid inputs; a race reported by
@@ -322,6 +322,17 @@ def run(ck):
         # -- canonical verdicts
         for verdict, name, src, main in G.canonical("c"):
             R.module(src, main, "canonical-src", "canonical:" + name, expect=verdict, n_random=2)
+        # -- chains of 2-3 window statements BEFORE the par loop, same cells reached through the innermost window
+        #    and through the root / an intermediate window / a second chain (all in thorough, every other one,
+        #    rotating with the seed, in quick)
+        wch = list(G.winchains("w"))
+        if not ck.thorough:
+            off = ck.rng.randrange(2)
+            wch = [x for k, x in enumerate(wch) if k % 2 == off or x[0].startswith("twochains")]
+        for (tag, rf, src, main) in wch:
+            if time.time() > deadline:
+                break
+            R.module(src, main, "winchain", "wch:" + tag, race_free_by_construction=rf, n_random=1)
         # -- systematic family: all of it in thorough, a rotating third in quick
         sysl = list(G.systematic("s"))
         if not ck.thorough:
